@@ -751,7 +751,8 @@ def run(ctx):
     # ---- 4. host:port ------------------------------------------------------------------------------------
     fixed_hosts = ["ecu.example", "192.168.0.10", "fe80::1", "::1"]
     cnt = 0
-    port_range = range(0, 65536) if not ctx.quick or True else range(0)
+    sj_reported = set()
+    port_range = range(0, 65536)
     for h in fixed_hosts[: ctx.pick(3, 4)]:
         for p in port_range:
             j = real.join_host_port(h, p)
@@ -760,7 +761,8 @@ def run(ctx):
             # the round trip the property names, on the real functions
             rt = real.split(j, None)
             exp = f"{hs(canon_host(h))} {p}"
-            if rt != exp:
+            if rt != exp and h not in sj_reported:
+                sj_reported.add(h)
                 pm = min_port(lambda q: real.split(real.join_host_port(h, q), None) != f"{hs(canon_host(h))} {q}", p)
                 ctx.disagree(f"split-join:{h}:{pm}", f"split_host_port(join_host_port({h!r}, {pm})) is not ({h!r}, {pm})",
                              {"fn": "split_join", "host": h, "port": pm}, impl=real.split(real.join_host_port(h, pm), None),
@@ -835,6 +837,12 @@ def run(ctx):
             cfg_lines.append(f"config {sch} {mp.split()[3]}")
             cfg_idx.append(i)
     model_cfg = dict(zip(cfg_idx, ctx.lean(cfg_lines)))
+    shrink_budget = {}
+
+    def budget(k):
+        shrink_budget[k] = shrink_budget.get(k, 0) + 1
+        return shrink_budget[k] <= 5
+
     for i, ((sch, h, p, a, kind), mu, mp) in enumerate(zip(uri_cases, model_uris, model_parsed)):
         case = {"scheme": sch, "host": h, "port": p, "args": {k: a[k] for k in a}}
         nt("from_parts", repr(case))
@@ -843,11 +851,11 @@ def run(ctx):
         raw = unhs(ru) if not ru.startswith("exc:") else None
         rp = real.parse(raw) if raw is not None else "exc"
         sh = shrink_uri(ctx, real)
-        if ru != mu:
+        if ru != mu and budget("str"):
             c2, i2, m2 = sh(case, "str")
             ctx.disagree("from_parts-string:" + case_key(c2), f"TargetURI.from_parts{tuple(c2.values())} renders {i2!r}; expected {m2!r}",
                          {"fn": "from_parts", **c2}, impl=i2, model=m2, spec_violated=True, site="TargetURI.from_parts")
-        if rp != mp:
+        if rp != mp and budget("parse"):
             c2, i2, m2 = sh(case, "parse")
             ctx.disagree("from_parts-parse-back:" + case_key(c2),
                          f"TargetURI.from_parts{tuple(c2.values())} does not parse back to its parts: got {i2}, expected {m2}",
@@ -855,7 +863,7 @@ def run(ctx):
         if i in model_cfg and raw is not None:
             q = real.qs_flat(raw)
             rc = real.config(sch, q) if q is not None else "err"
-            if rc != model_cfg[i]:
+            if rc != model_cfg[i] and budget("config-" + sch):
                 c2, i2, m2 = sh(case, "config")
                 ctx.disagree(f"config-{sch}:" + case_key(c2), f"{sch} config built from the URI differs: got {i2}, expected {m2}",
                              {"fn": "config", **c2}, impl=i2, model=m2, spec_violated=True, site=f"{sch} config")
